@@ -20,7 +20,10 @@ def cases(draw, tier):
             # how the assignment reaches the call: as built, or after copy.deepcopy / a pickle round trip (the Undefined
             # marker then is another object of the same kind)
             'transport': draw(st.sampled_from(['none', 'none', 'deepcopy', 'pickle'])),
-            'pre': draw(st.sampled_from([None, None, None, 'into_bench']))}
+            # what happened to the circuit before it is evaluated here: converted to the bench basis, or looked at (evaluated,
+            # sorted, copied) and then had some inputs fixed to constants
+            'pre': draw(st.sampled_from([None, None, None, 'into_bench', 'fix_inputs'])),
+            'fix': [draw(st.integers(0, 8)) for _ in range(draw(st.integers(1, 2)))], 'fix_to': draw(st.booleans())}
 
 
 def check_partial(case):
@@ -38,6 +41,11 @@ def check_partial(case):
             with UuidStream(7):
                 c.into_bench()
             nl = refsem.from_circuit(c)
+    if case.get('pre') == 'fix_inputs' and nl['inputs']:
+        build.observe(c)
+        chosen = list(dict.fromkeys(nl['inputs'][i % len(nl['inputs'])] for i in case.get('fix', [0])))
+        c.replace_inputs(chosen if case.get('fix_to') else chosen[:1], [] if case.get('fix_to') else chosen[1:])
+        nl = refsem.from_circuit(c)
     n = len(nl['inputs'])
     pats, mask = refsem.full_patterns(n)
     t = refsem.tables(nl)
@@ -146,8 +154,10 @@ def check_partial(case):
             break
     cls = gen.classify(nl)
     cls.add(f'n={n}')
-    if case.get('pre'):
+    if case.get('pre') == 'into_bench':
         cls.add('after_into_bench')
+    if case.get('pre') == 'fix_inputs':
+        cls.add('after_fix_inputs')
     if tr != 'none' and case['explicit_undefined']:
         cls.add('undefined_marker_copied')
     return {'nt': nt, 'cls': cls, 'count': {'partial_assignments': 3 ** n},
@@ -173,6 +183,11 @@ def check_reuse(case):
     U = core.Undefined
     nl = case['nl']
     c = build.build(nl, case['route'])
+    if case.get('pre') == 'fix_inputs' and nl['inputs']:
+        build.observe(c)
+        chosen = list(dict.fromkeys(nl['inputs'][i % len(nl['inputs'])] for i in case.get('fix', [0])))
+        c.replace_inputs(chosen if case.get('fix_to') else chosen[:1], [] if case.get('fix_to') else chosen[1:])
+        nl = refsem.from_circuit(c)
     n = len(nl['inputs'])
     pats, mask = refsem.full_patterns(n)
     t = refsem.tables(nl)
@@ -272,5 +287,5 @@ SPEC = {
     'subs': [Sub('partial', cases, check_partial, {'quick': 1500, 'thorough': 75000}),
              Sub('dict_reuse', reuse_cases, check_reuse, {'quick': 1500, 'thorough': 50000})],
     'exhaustive': {'operator_tables': operator_tables},
-    'required_classes': {'partial': ['nary>=3', 'LR_gate', 'cmp_gate', 'constant', 'dup_operand', 'dead_gate', 'zero_inputs']},
+    'required_classes': {'partial': ['nary>=3', 'LR_gate', 'cmp_gate', 'constant', 'dup_operand', 'dead_gate', 'zero_inputs', 'after_into_bench', 'after_fix_inputs']},
 }
